@@ -20,9 +20,15 @@ def _log(owner, name, args):
     world.vt_c14_log.append((owner, name, list(args)))
 
 def _make(name):
-    k = name[0]
     def command(self, irc, msg, args):
         _log(self.name(), name, args)
+        _act(name[0], name, irc, msg, args)
+    command.__name__ = name
+    command.__doc__ = "<anything>\n\nSynthetic C14 command %s." % name
+    return command
+
+def _act(k, name, irc, msg, args):
+    if True:
         text = name + '(' + ', '.join(args) + ')'
         if k in 'rbvlh':
             irc.reply(text)
@@ -50,9 +56,6 @@ def _make(name):
             raise callbacks.ArgumentError
         elif k == 'q':
             raise callbacks.SilentError
-    command.__name__ = name
-    command.__doc__ = "<anything>\n\nSynthetic C14 command %s." % name
-    return command
 
 def _fill(cls, names):
     for n in names:
@@ -67,5 +70,20 @@ _fill(VtOrderA.grp, ['rga', 'both', 'nga', 'sga'])
 _fill(VtOrderA, ['rone', 'rtwo', 'both', 'nrep', 'erro', 'sile', 'igno', 'jtag', 'xval', 'yerr', 'zarg', 'qsil',
                  'vtorderb', 'list', 'rdis',
                  'runi', 'nuni', 'suni', 'iuni', 'juni', 'xuni', 'euni', 'yuni', 'zuni', 'quni', 'ouni', 'wuni'])
+
+def _invalidCommand(self, irc, msg, tokens):
+    """an invalidCommand handler: answers for first tokens `ainv<k>...` (behaviour letter <k>) and
+    `cinv<kb><ka>...` (letter <kb> in VtOrderB, <ka> in VtOrderA); lets everything else pass"""
+    if not tokens:
+        return
+    t = tokens[0]
+    if len(t) >= 5 and t[1:4] == 'inv' and t[0] == 'a':
+        k = t[4]
+    elif len(t) >= 6 and t[:4] == 'cinv':
+        k = t[4] if 'a' == 'b' else t[5]
+    else:
+        return
+    _act(k, t, irc, msg, tokens[1:])
+VtOrderA.invalidCommand = _invalidCommand
 
 Class = VtOrderA
